@@ -171,3 +171,27 @@ Example name_record_area_overflow_refuted :
   (name_storage_len name_appleBCP name_msBCP 1 many_info <=? 65535) = true /\
   M_name_decode (M_name_encode name_appleBCP name_msBCP 1 many_info) = Err.
 Proof. vm_compute. repeat split; reflexivity. Qed.
+
+(* ------------------------------------------------------------------ *)
+(* script/language tags *)
+From C14 Require Import ModelTags Proofs_tags.
+
+(* ("lao ", "DEU ") -> "de-Laoo-x-lao-DEU"; x/text returns "x-lao-deu" *)
+Example ex_otf_lao :
+  M_otf_tag_string [108; 97; 111; 32] [68; 69; 85; 32] =
+    Some ([100; 101; 45; 76; 97; 111; 111], [108; 97; 111; 45; 68; 69; 85]) /\
+  xtext_ref (full_tag ([100; 101; 45; 76; 97; 111; 111], [108; 97; 111; 45; 68; 69; 85])) =
+    Some [120; 45; 108; 97; 111; 45; 100; 101; 117] /\
+  M_from_ext [120; 45; 108; 97; 111; 45; 100; 101; 117] = Some ([108; 97; 111; 32], [68; 69; 85; 32]).
+Proof. vm_compute. repeat split; reflexivity. Qed.
+(* default script and default language system *)
+Example ex_otf_dflt :
+  M_otf_pair [68; 70; 76; 84] [] = Some ([120; 45; 100; 102; 108; 116], ([68; 70; 76; 84], [])).
+Proof. vm_compute. reflexivity. Qed.
+(* unknown script: error *)
+Example ex_otf_unknown : M_otf_pair [122; 122; 122; 122] [] = None.
+Proof. vm_compute. reflexivity. Qed.
+(* before the repair (the extension kept the padding of "lao ") the private-use
+   part was not well-formed: the hypothesis of xtext_spec fails on it *)
+Example ex_otf_untrimmed_refuted : priv_ok [108; 97; 111; 32] = false /\ priv_ok [108; 97; 111] = true.
+Proof. vm_compute. split; reflexivity. Qed.
